@@ -125,8 +125,19 @@ func verifFSFaulted() bool { return verifFaultHit }
 
 type verifElem struct{ k, v int }
 
-func verifMkElem(name string, rec bool) (LessInterface, verifElem) {
-	k := verifInt("k"+name, 0, 3)
+// verifMkElem: the i-th value of a cycle. With symmask < 0 every key is symbolic in [0,3]; else
+// only the values whose bit is set in symmask are symbolic (in [0,12]) and the others follow a
+// fixed scrambled pattern, which allows cycles of 10-20 values over many run files.
+func verifMkElem(name string, rec bool, i int) (LessInterface, verifElem) {
+	var k int
+	switch mask := verifParam("symmask"); {
+	case mask < 0:
+		k = verifInt("k"+name, 0, 3)
+	case mask&(1<<uint(i)) != 0:
+		k = verifInt("k"+name, 0, 12)
+	default:
+		k = (i*7 + 3) % 11
+	}
 	if rec {
 		v := verifInt("v"+name, 0, 1)
 		return verifRec{k, v}, verifElem{k, v}
@@ -177,7 +188,7 @@ func VerifC11_History() {
 		}
 		var pushed []verifElem
 		for i := 0; i < n; i++ {
-			e, el := verifMkElem(cs+string(rune('0'+i)), rec)
+			e, el := verifMkElem(cs+string(rune('0'+i)), rec, i)
 			if faults && sawError {
 				break
 			}
